@@ -269,6 +269,10 @@ def _tree_to_objects(
     # Find all the changed blobs
     for change in tree.iter_changes(base_tree):
         if change.name[1] in BANNED_FILENAMES:
+            # Not exported, but the directories it left (and entered) change.
+            for p in change.path:
+                if p is not None:
+                    dirty_dirs.add(osutils.dirname(p))
             continue
         if change.kind[1] == "file":
             sha1 = tree.get_file_sha1(change.path[1])
